@@ -362,6 +362,12 @@ fn c10_withdrawals(order: &[usize], script_hash_byte: u8) -> Result<(), String> 
     present.sort_by(|a, b| key(a).cmp(&key(b)));
     let expect = present.iter().position(|a| a.to_address().to_bytes() == accounts[1].to_address().to_bytes()).unwrap();
     if idx != expect { return Err(format!("{}: reward redeemer index {} but the script account is number {} in reward-account order", tag, idx, expect)); }
+    // and the emitted map lists the accounts in that same order (so index == position in the body as well)
+    let keys = tx.body().withdrawals().ok_or(format!("{}: no withdrawals in the body", tag))?.keys();
+    if keys.len() != order.len() { return Err(format!("{}: {} withdrawals emitted for {} added", tag, keys.len(), order.len())); }
+    for i in 0..keys.len() {
+        if keys.get(i).to_address().to_bytes() != present[i].to_address().to_bytes() { return Err(format!("{}: emitted withdrawals are not in reward-account order at position {}", tag, i)); }
+    }
     Ok(())
 }
 
